@@ -362,7 +362,7 @@ func (c *Check) writerLifetime(rule string) {
 			if st, isS := acc.Instr.(*ssa.Store); isS && ok {
 				switch acc.Field {
 				case "conn":
-					ld, isL := st.Val.(*ssa.UnOp)
+					ld, isL := p.origin(st.Val).(*ssa.UnOp)
 					okC := false
 					if isL {
 						if fa, isF := ld.X.(*ssa.FieldAddr); isF && structFieldName(fa) == "conn" {
